@@ -1,9 +1,9 @@
 #!/bin/sh
 # usage: tools/mutant.sh <ID> <file relative to repo> <python-regex> <replacement>
-# Applies one mutation in the scratch worktree $WT (default /tmp/wt-main, created from /repo HEAD if missing),
+# Applies one mutation in the scratch worktree $WT (default /tmp/wt-mine, created from /repo HEAD if missing),
 # runs the quick check against it, and reverts. /repo itself is never touched.
 ID=$1; F=$2; PAT=$3; REP=$4
-WT=${WT:-/tmp/wt-main}
+WT=${WT:-/tmp/wt-mine}
 [ -d "$WT" ] || git -C /repo worktree add --detach "$WT" HEAD >/dev/null 2>&1
 cd "$WT" || exit 9
 git checkout -q -- . && git checkout -q --detach "$(git -C /repo rev-parse HEAD)"
